@@ -83,7 +83,7 @@ pub fn tuple_destructure(tpl_dstrct: &TupleDestructure, p: &Interpreter) -> MRes
       ).with_compiler_loc().with_tokens(var.tokens()));
     }
     if let Some(element) = tpl.borrow().get(i) {
-      symbols_brrw.insert(id, element.clone(), true);
+      symbols_brrw.insert(id, element.clone(), false);
       symbols_brrw.dictionary.borrow_mut().insert(id, var.name.to_string());
     } else {
       return Err(MechError::new(
